@@ -209,7 +209,7 @@ def schedule_distribution(cases):
 
 class C12(PropBase):
     pid = "C12"
-    translators = ["c12_structure.py", "c12_program.py"]
+    translators = ["c12_structure.py", "c12_program.py", "c12_processor.py"]
     coq_dirs = ["C12"]
     bins = ["c12"]
     # per-SHARD limit of the implementation children (runner default 900 s): the thorough tier has ~170 000 cases per shard and
